@@ -10,7 +10,6 @@ import (
 	"fmt"
 	"os"
 	"sort"
-	"strings"
 	"sync"
 
 	"verifharness/e2e"
@@ -45,14 +44,14 @@ func main() {
 		var wg sync.WaitGroup
 		var all [][]e2e.EngStep
 		var allB [][]e2e.Step
-		wits := e2e.EngWitnesses()
+		wits := append(e2e.EngWitnesses(), e2e.EngOutDirWitnesses()...)
 		witH := make([][]e2e.EngStep, len(wits))
 		wg.Add(2 + len(wits))
 		go func() {
 			defer wg.Done()
 			all = e2e.EngRunHistories(rA, base+"/a", nA, 10, func(i int) e2e.EngOpts {
 				return e2e.EngOpts{MaxPkgs: 2, MaxTargets: 6, Steps: steps, CleanRef: true, Subsets: i%3 == 1, Failures: i%4 == 3,
-					PWipe: 8, PRevert: 15, PNoop: 5, DirHeavy: i%2 == 0}
+					PWipe: 8, PRevert: 15, PNoop: 5, DirHeavy: i%2 == 0, OutDirs: i%2 == 1, RuleHashes: true}
 			})
 		}()
 		go func() {
@@ -65,7 +64,7 @@ func main() {
 				defer wg.Done()
 				dir := fmt.Sprintf("%s/w%d", base, wi)
 				os.MkdirAll(dir, 0o755)
-				witH[wi] = e2e.EngRunSpecs(dir, wits[wi].Specs, wits[wi].Order, e2e.EngOpts{CleanRef: true}, nil)
+				witH[wi] = e2e.EngRunSpecs(dir, wits[wi].Specs, wits[wi].Order, e2e.EngOpts{CleanRef: true, RuleHashes: true}, nil)
 			}(wi)
 		}
 		wg.Wait()
@@ -81,7 +80,11 @@ func main() {
 				}
 				oracle(c, i, h, k)
 			}
+			if timedOut(c, h) {
+				continue
+			}
 			c.Case(e2e.EngCaseTerm(h), histJSON(i, h, len(h)-1), e2e.EngKey(h), changed >= 2)
+			ruleKeys(c, i, h)
 		}
 
 		// fixed witnesses of the directory-hash defect
@@ -91,11 +94,19 @@ func main() {
 				c.Hist("edit", "witness-"+w.Name)
 				oracle(c, 1000+wi, h, k)
 			}
+			if timedOut(c, h) {
+				continue
+			}
 			c.Case(e2e.EngCaseTerm(h), histJSON(1000+wi, h, len(h)-1), e2e.EngKey(h), true)
+			ruleKeys(c, 1000+wi, h)
 		}
 
 		for i, hist := range allB {
 			for _, st := range hist {
+				if st.Exit == -9 || st.CleanExit == -9 { // killed by the harness timeout (machine overloaded): no verdict
+					c.Hist("edit-b", "timed-out")
+					break
+				}
 				c.Hist("edit-b", st.Edit.Kind)
 				js := map[string]any{"history": i, "part": "B", "step": st.Index, "edit": st.Edit, "exit": st.Exit, "clean_exit": st.CleanExit, "executed": st.Executed, "outputs": st.OutStr, "clean": st.CleanStr}
 				c.Eval(js, fmt.Sprint("B", st.Spec.Labels(), st.OutStr, st.Edit), st.Index > 0 && st.Edit.Kind != "none")
@@ -131,12 +142,51 @@ func histJSON(i int, h []e2e.EngStep, upto int) map[string]any {
 		"executed": st.Executed, "outputs": st.OutStr, "clean": st.CleanStr}
 }
 
+// timedOut: a plz invocation of the history was killed by the harness timeout (overloaded machine): the history
+// says nothing about the property or the model, it is counted and dropped.
+func timedOut(c *lib.Ctx, h []e2e.EngStep) bool {
+	for k := range h {
+		if h[k].TimedOut || h[k].Exit == -9 || h[k].CleanExit == -9 {
+			c.Hist("edit", "timed-out")
+			return true
+		}
+	}
+	return false
+}
+
+// ruleKeys: the model's rule key (a digest of the BUILD entry) against the real rule hash (`plz hash --detailed`)
+// for every target of the history: equal keys <-> equal hashes. One Coq case per history, plus the direct oracle.
+func ruleKeys(c *lib.Ctx, i int, h []e2e.EngStep) {
+	term, pairs := e2e.EngRuleKeysTerm(h)
+	if term == "" {
+		return
+	}
+	js := map[string]any{"history": i, "rule_keys": pairs}
+	c.Case(term, js, fmt.Sprint("keys", pairs), len(pairs) >= 2)
+	c.HistN("rule-key-pairs", len(pairs))
+	c.Oracle()
+	for a := range pairs {
+		for b := a + 1; b < len(pairs); b++ {
+			sameKey, sameHash := pairs[a][0] == pairs[b][0], pairs[a][1] == pairs[b][1]
+			if sameKey && !sameHash {
+				c.Fail("rule-hash-differs-for-one-definition", fmt.Sprintf("definition %s has rule hashes %s and %s", pairs[a][0], pairs[a][1], pairs[b][1]), js)
+			}
+			if !sameKey && sameHash {
+				c.Fail("rule-hash-equal-for-different-definitions", fmt.Sprintf("definitions %s and %s have the same rule hash %s", pairs[a][0], pairs[b][0], pairs[a][1]), js)
+			}
+		}
+	}
+}
+
 // oracle: incremental = clean at step k of history h
 func oracle(c *lib.Ctx, i int, h []e2e.EngStep, k int) {
 	st := &h[k]
+	if st.TimedOut || st.Exit == -9 || st.CleanExit == -9 {
+		return
+	}
 	c.Oracle()
 	if (st.Exit == 0) != (st.CleanExit == 0) {
-		c.Fail("exit-status-differs", fmt.Sprintf("incremental exit %d, clean exit %d after %v: %s", st.Exit, st.CleanExit, st.Edit, st.Stderr), histJSON(i, h, k))
+		c.Fail(e2e.ExitClass(h, k), fmt.Sprintf("incremental exit %d, clean exit %d after %v: %s", st.Exit, st.CleanExit, st.Edit, st.Stderr), histJSON(i, h, k))
 		return
 	}
 	if st.Exit != 0 {
@@ -162,20 +212,18 @@ func replayHistory(c *lib.Ctx, base string, specs []*e2e.Spec) {
 		repo.Write(s)
 		order := s.Labels()
 		sort.SliceStable(order, func(a, b int) bool { return depth(s, order[a]) < depth(s, order[b]) })
-		h = append(h, e2e.EngBuild(repo, base, s, order, s.Labels(), i, e2e.Edit{Kind: "replay"}, false, e2e.EngOpts{CleanRef: true}))
+		h = append(h, e2e.EngBuild(repo, base, s, order, s.Labels(), i, e2e.Edit{Kind: "replay"}, false, e2e.EngOpts{CleanRef: true, RuleHashes: true}))
 		oracle(c, 0, h, i)
 	}
 	modelled := true
 	for _, s := range specs {
-		for _, l := range s.Labels() {
-			t := s.Target(l)
-			if len(t.OutDirs) > 0 || strings.Contains("outdir envdump sleepconcat touchopt", t.Cmd.Op) && t.Cmd.Op != "" {
-				modelled = false
-			}
+		if !e2e.EngSpecModelled(s) {
+			modelled = false
 		}
 	}
-	if modelled {
+	if modelled && !timedOut(c, h) {
 		c.Case(e2e.EngCaseTerm(h), histJSON(0, h, len(h)-1), e2e.EngKey(h), true)
+		ruleKeys(c, 0, h)
 	}
 }
 
